@@ -142,3 +142,15 @@ def install(R):
                    '   and matches[j].key == lower(name) and matches[j].type == type_ and matches[j].class_ == class_))',
                    'forall("m:int", lambda m: implies(0 <= m and m < _k and _it[m].type == type_ and _it[m].class_ == class_, '
                    '   exists("j:int", lambda j: 0 <= j and j < len(matches) and matches[j] is _it[m])))'])})
+
+
+def _gen_remove_key(g):
+    c = g.cache()
+    rec = g.value('DNSRecord')
+    which = g.rng.choice(['cache', 'service_cache'])
+    key = rec.key if g.rng.random() < 0.8 else g.rng.choice(['a.local.', 'zz.local.'])
+    return {'cache': getattr(c, which), 'key': key, 'record': rec}
+
+
+def install_generators(R):
+    R.generators[('zeroconf._cache', '_remove_key')] = _gen_remove_key
